@@ -134,7 +134,7 @@ CHECKS = {
         ],
     },
     "C06": {
-        "level_text": "Fault enumeration over the real handleStream/StreamForwarder in a virtual-time bubble: generated bidirectional message scripts with stalls and in-flight bursts, one termination event of each of 10 kinds at every position of the script (systematic part) and at random positions; prefix/completeness/ending-together invariants plus goroutine-leak detection at bubble exit; overlapping streams for one shard pair (shared process-wide bookkeeping) under a real-time lock watchdog.",
+        "level_text": "Fault enumeration over the real handleStream/StreamForwarder in a virtual-time bubble: generated bidirectional message scripts with stalls and in-flight bursts, one termination event of each of 11 kinds at every position of the script (systematic part) and at random positions; prefix/completeness/ending-together invariants plus goroutine-leak detection at bubble exit; overlapping streams for one shard pair (shared process-wide bookkeeping) under a real-time lock watchdog.",
         "technique": "fault-position enumeration over generated scripts (rapid) with history invariants; virtual time via testing/synctest",
         "level": "fault_enumeration",
         "assumptions": [
@@ -257,6 +257,8 @@ CHECKS = {
              "checks": {"quick": 2500, "thorough": 25000}, "shards": {"quick": 4, "thorough": 16}},
             {"name": "intraproxy", "pkg": "proxy", "run": "^TestVF_C08_IntraProxy$",
              "checks": {"quick": 600, "thorough": 6000}, "shards": {"quick": 2, "thorough": 8}},
+            {"name": "registrystress", "pkg": "proxy", "run": "^TestVF_C08_RegistryStress$",
+             "checks": {"quick": 20, "thorough": 300}, "shards": {"quick": 1, "thorough": 4}},
             {"name": "multinode", "pkg": "proxy", "run": "^TestVF_C08_MultiNode$",
              "checks": {"quick": 300, "thorough": 4000}, "shards": {"quick": 4, "thorough": 16}},
             {"name": "intraproxyrecv", "pkg": "proxy", "run": "^TestVF_C08_IntraProxyReceiver$",
